@@ -144,6 +144,22 @@ theorem mk2_mark_mono {st : St} {row r : Int} (h : mk2 e st r = e.jcol) :
     · exact h'.trans h
   · rw [mk2_mark_ne hr]; exact h
 
+/-- every unpivoted row that carries the mark of this column has been appended -/
+def MA (e : Env) (nextl0 : Int) (st : St) : Prop :=
+  ∀ r, 0 ≤ r → r < e.m → mk2 e st r = e.jcol → rd e.perm_r r = EMPTY → r ∈ slice st.lsub nextl0 st.nextl
+
+theorem MA.congr {st st' : St} (h : MA e nextl0 st) (h1 : st'.lsub = st.lsub) (h2 : st'.nextl = st.nextl)
+    (h3 : ∀ r, mk2 e st' r = e.jcol → mk2 e st r = e.jcol) : MA e nextl0 st' := by
+  intro r r0 r1 hm hp
+  rw [h1, h2]; exact h r r0 r1 (h3 r hm) hp
+
+theorem MA.markPivoted {st : St} (h : MA e nextl0 st) {row : Int} (hp : rd e.perm_r row ≠ EMPTY) :
+    MA e nextl0 { st with marker := wr st.marker (2 * e.m + row) e.jcol } := by
+  intro r r0 r1 hm hun
+  by_cases hr : r = row
+  · subst hr; exact absurd hun hp
+  · rw [mk2_mark_ne hr] at hm; exact h r r0 r1 hm hun
+
 theorem slice_length (a : Array Int) (lo hi : Int) : (slice a lo hi).length = (hi - lo).toNat := by
   simp [slice]
 
@@ -218,6 +234,63 @@ theorem StOK.append {st : St} (h : StOK e L nextl0 st) (row mark : Int) (hr0 : 0
   · exact { key with app := key.app.congr rfl rfl (fun _ hh => hh) }
   · exact key
 
+theorem appendRow_lsub (st : St) (row mark : Int) :
+    (appendRow e st row mark).lsub = wr st.lsub st.nextl row ∧ (appendRow e st row mark).nextl = st.nextl + 1 ∧
+    (appendRow e st row mark).marker = st.marker := by
+  unfold appendRow; split <;> exact ⟨rfl, rfl, rfl⟩
+
+/-- mark an unpivoted, unmarked row and append it -/
+theorem MA.markAppend {st : St} (hma : MA e nextl0 st) (h : StOK e L nextl0 st) (row mark : Int)
+    (hok : StOK e L nextl0 (appendRow e ({ st with marker := wr st.marker (2 * e.m + row) e.jcol }) row mark))
+    (hroom : st.nextl < st.lsub.size) :
+    MA e nextl0 (appendRow e ({ st with marker := wr st.marker (2 * e.m + row) e.jcol }) row mark) := by
+  obtain ⟨a1, a2, a3⟩ := appendRow_lsub (e := e) ({ st with marker := wr st.marker (2 * e.m + row) e.jcol }) row mark
+  have n0 := h.app.n0
+  have hle := h.nextl
+  intro r r0 r1 hm hun
+  rw [a1, a2]
+  show r ∈ slice (wr st.lsub st.nextl row) nextl0 (st.nextl + 1)
+  rw [slice_snoc _ n0 hle, rd_wr_eq (by omega) hroom]
+  by_cases hr : r = row
+  · subst hr; simp
+  · refine mem_append_left _ ?_
+    have : slice (wr st.lsub st.nextl row) nextl0 st.nextl = slice st.lsub nextl0 st.nextl :=
+      slice_congr n0 (fun y _ hy => rd_wr_ne (by omega))
+    rw [this]
+    refine hma r r0 r1 ?_ hun
+    unfold mk2 at hm ⊢
+    rw [a3] at hm
+    rwa [rd_wr_ne (by omega)] at hm
+
+theorem StOK.room {st : St} (h : StOK e L nextl0 st) {row : Int} (hr0 : 0 ≤ row) (hr1 : row < e.m)
+    (hun : rd e.perm_r row = EMPTY) (hnot : row ∉ slice st.lsub nextl0 st.nextl) : st.nextl < st.lsub.size := by
+  have hnd : (slice st.lsub nextl0 st.nextl ++ [row]).Nodup := by
+    rw [nodup_append]
+    exact ⟨h.app.nodup, by simp, fun a ha b hb => by
+      rw [mem_singleton] at hb; subst hb; intro hab; subst hab; exact hnot ha⟩
+  have hall : ∀ r ∈ slice st.lsub nextl0 st.nextl ++ [row], 0 ≤ r ∧ r < e.m ∧ rd e.perm_r r = EMPTY := by
+    intro r hr
+    rcases mem_append.mp hr with hr | hr
+    · obtain ⟨a, b, c, _⟩ := h.app.rows r hr; exact ⟨a, b, c⟩
+    · rw [mem_singleton] at hr; subst hr; exact ⟨hr0, hr1, hun⟩
+  have h1 : ((slice st.lsub nextl0 st.nextl ++ [row]).map Int.toNat).Nodup := by
+    refine Nodup.map_on ?_ hnd
+    intro a ha b hb hab
+    have := (hall a ha).1; have := (hall b hb).1; omega
+  have h2 : (slice st.lsub nextl0 st.nextl ++ [row]).map Int.toNat ⊆ unpivoted e.m e.perm_r := by
+    intro t ht
+    obtain ⟨r, hr, rfl⟩ := mem_map.mp ht
+    obtain ⟨a, b, c⟩ := hall r hr
+    unfold unpivoted
+    simp only [mem_filter, mem_range, decide_eq_true_eq]
+    exact ⟨by omega, by rw [Int.toNat_of_nonneg a]; exact c⟩
+  have h3 := (List.subperm_of_subset h1 h2).length_le
+  rw [length_map, length_append, slice_length] at h3
+  have := h.app.cap
+  have := h.nextl
+  simp at h3
+  omega
+
 theorem disc_wr {a : Array Int} {i v : Int} (hv : v ≠ EMPTY) (hi : rd a i ≠ EMPTY) (t : Int) :
     rd (wr a i v) t ≠ EMPTY ↔ rd a t ≠ EMPTY := by
   by_cases ht : t = i
@@ -272,6 +345,7 @@ structure ScanRes (s : Nat) (st : St) (post : List Nat) (d : Nat) (st' : St) (po
   newFin : ∀ t : Nat, (t : Int) < e.jcol → disc st' t → disc st t ∨ t ∈ post'
   frame : ∀ t : Int, t ≤ s → rd st'.parent t = rd st.parent t ∧ (t < s → rd st'.xplore t = rd st.xplore t)
   bound : n + post.length * stepK nextl0 ≤ d + post'.length * stepK nextl0
+  ma : MA e nextl0 st'
 
 /-- the statement proved by induction: scanning `L[x .. xprune[s])` with the machine = folding the
 recursive visit (fuel `f`) over the successors found there -/
@@ -280,7 +354,7 @@ def ScanAt (adj : Nat → List Nat) (f : Nat) : Prop :=
     (s : Int) < e.jcol → e.jcol ≤ s + f + 1 → repOf e s = s →
     rd e.xlsub s ≤ x → x + d = rd e.xprune s →
     StOK e L nextl0 st → PostOK e post st → disc st s →
-    (∀ t : Nat, (t : Int) < e.jcol → disc st t → t ∈ post ∨ t ≤ s) →
+    (∀ t : Nat, (t : Int) < e.jcol → disc st t → t ∈ post ∨ t ≤ s) → MA e nextl0 st →
     ∃ n st' post',
       (∀ F, run e (n + F) ⟨s, x, rd e.xprune s, st⟩ = run e F ⟨s, rd e.xprune s, rd e.xprune s, st'⟩) ∧
       post' = (succFrom e L s x (rd e.xprune s)).foldl (fun acc r => dfsVisit adj f r acc) post ∧
@@ -321,6 +395,7 @@ theorem ScanRes.of_mild {s : Nat} {st st1 st' : St} {post post' : List Nat} {d n
   newFin := fun t ht hd => (h.newFin t ht hd).imp_left (hm.disc _).mp
   frame := fun t ht => by rw [← hm.parent, ← hm.xplore]; exact h.frame t ht
   bound := by have := h.bound; omega
+  ma := h.ma
 
 theorem PostOK.of_mild {st st1 : St} {post : List Nat} (hm : Mild st st1) (h : PostOK e post st) : PostOK e post st1 where
   nodup := h.nodup
@@ -379,15 +454,15 @@ theorem scan_rows (hE : EnvOK e L nextl0) {adj : Nat → List Nat}
   intro d
   induction d with
   | zero =>
-    intro s x st post hs hf hrs hx hxd hst hpo hds hdf
+    intro s x st post hs hf hrs hx hxd hst hpo hds hdf hma
     have hx' : x = rd e.xprune s := by omega
     subst hx'
     refine ⟨0, st, post, fun F => by simp, ?_, ?_⟩
     · simp [succFrom, slice_nil]
     · exact ⟨hst, hpo, ⟨[], by simp, by simp, by simp, by simp [slice_nil]⟩, fun _ _ => rfl, fun _ h => h,
-        fun _ _ h => Or.inl h, fun _ _ => ⟨rfl, fun _ => rfl⟩, by omega⟩
+        fun _ _ h => Or.inl h, fun _ _ => ⟨rfl, fun _ => rfl⟩, by omega, hma⟩
   | succ d ihd =>
-    intro s x st post hs hf hrs hx hxd hst hpo hds hdf
+    intro s x st post hs hf hrs hx hxd hst hpo hds hdf hma
     obtain ⟨hl0, hl1, hl2, hrows⟩ := hE.lists s (by omega) hs hrs
     have hxlt : x < rd e.xprune s := by omega
     have hx0 : 0 ≤ x := by omega
@@ -395,16 +470,16 @@ theorem scan_rows (hE : EnvOK e L nextl0) {adj : Nat → List Nat}
     have hrow : rd st.lsub x = rd L x := hst.pre x hx0 (by omega)
     have hE1 : (EMPTY : Int) = -1 := rfl
     -- the three cases that do not descend
-    have cont : ∀ st1, Mild st st1 → StOK e L nextl0 st1 →
+    have cont : ∀ st1, Mild st st1 → StOK e L nextl0 st1 → MA e nextl0 st1 →
         rowStep e ⟨s, x, rd e.xprune s, st⟩ = ⟨s, x + 1, rd e.xprune s, st1⟩ →
         ((s : Int) < rd e.perm_r (rd L x) → repN e (rd e.perm_r (rd L x)).toNat ∈ post) →
         ∃ n st' post',
           (∀ F, run e (n + F) ⟨s, x, rd e.xprune s, st⟩ = run e F ⟨s, rd e.xprune s, rd e.xprune s, st'⟩) ∧
           post' = (succFrom e L s x (rd e.xprune s)).foldl (fun acc r => dfsVisit adj f r acc) post ∧
           ScanRes e L nextl0 s st post (d + 1) st' post' n := by
-      intro st1 hm hst1 hstep hnoop
+      intro st1 hm hst1 hma1 hstep hnoop
       obtain ⟨n, st', post', hrun, hpost, hres⟩ := ihd s (x + 1) st1 post hs hf hrs (by omega) (by omega) hst1
-        (hpo.of_mild hm) ((hm.disc _).mpr hds) (fun t ht hd => hdf t ht ((hm.disc _).mp hd))
+        (hpo.of_mild hm) ((hm.disc _).mpr hds) (fun t ht hd => hdf t ht ((hm.disc _).mp hd)) hma1
       refine ⟨n + 1, st', post', ?_, ?_, hres.of_mild hm⟩
       · intro F
         rw [show n + 1 + F = (n + F) + 1 by omega, run_row (by exact hxlt), hstep]
@@ -429,7 +504,7 @@ theorem scan_rows (hE : EnvOK e L nextl0) {adj : Nat → List Nat}
       · omega
     by_cases hmk : mk2 e st (rd L x) = e.jcol
     · -- (A) the row carries the mark of this column
-      refine cont st ⟨rfl, rfl, rfl, rfl, fun _ => Iff.rfl⟩ hst ?_ ?_
+      refine cont st ⟨rfl, rfl, rfl, rfl, fun _ => Iff.rfl⟩ hst hma ?_ ?_
       · have := rowStep_marked (e := e) (c := ⟨s, x, rd e.xprune s, st⟩) (by simpa [hrow] using hmk)
         simpa using this
       · intro hlt
@@ -437,9 +512,11 @@ theorem scan_rows (hE : EnvOK e L nextl0) {adj : Nat → List Nat}
         intro h; rw [h, hE1] at hlt; omega
     · by_cases hkp : rd e.perm_r (rd L x) = EMPTY
       · -- (B) unpivoted row: appended
-        refine cont _ ⟨?_, ?_, ?_, ?_, ?_⟩ ((hst.mark (rd L x) (fun h => absurd hkp h)).append (rd L x) (mk2 e st (rd L x)) hr0 hr1 hkp
+        have hokB := (hst.mark (rd L x) (fun h => absurd hkp h)).append (rd L x) (mk2 e st (rd L x)) hr0 hr1 hkp
           (by unfold mk2; exact rd_wr_eq (by have := hE.m0; omega) (by have := hst.szMark; omega))
-          (fun hin => hmk (hst.app.rows _ hin).2.2.2)) ?_ ?_
+          (fun hin => hmk (hst.app.rows _ hin).2.2.2)
+        refine cont _ ⟨?_, ?_, ?_, ?_, ?_⟩ hokB (hma.markAppend hst _ _ hokB
+          (hst.room hr0 hr1 hkp (fun hin => hmk (hst.app.rows _ hin).2.2.2))) ?_ ?_
         · unfold appendRow; split <;> rfl
         · unfold appendRow; split <;> rfl
         · unfold appendRow; split <;> rfl
@@ -453,7 +530,9 @@ theorem scan_rows (hE : EnvOK e L nextl0) {adj : Nat → List Nat}
           have hd' : disc { st with marker := wr st.marker (2 * e.m + rd L x) e.jcol } (repOf e (rd e.perm_r (rd L x))) := hdc
           refine cont (lowerFnz ({ st with marker := wr st.marker (2 * e.m + rd L x) e.jcol }) (repOf e (rd e.perm_r (rd L x)))
             (rd st.repfnz (repOf e (rd e.perm_r (rd L x)))) (rd e.perm_r (rd L x))) ⟨?_, ?_, ?_, ?_, ?_⟩
-            ((hst.mark (rd L x) (fun _ => hdc)).lower hkp hd') ?_ (fun hlt => hfin hlt hdc)
+            ((hst.mark (rd L x) (fun _ => hdc)).lower hkp hd')
+            ((hma.markPivoted hkp).congr (by unfold lowerFnz; split <;> rfl) (by unfold lowerFnz; split <;> rfl)
+              (fun r hr => by unfold lowerFnz at hr; split at hr <;> exact hr)) ?_ (fun hlt => hfin hlt hdc)
           · unfold lowerFnz; split <;> rfl
           · unfold lowerFnz; split <;> rfl
           · unfold lowerFnz; split <;> rfl
@@ -532,6 +611,8 @@ theorem scan_rows (hE : EnvOK e L nextl0) {adj : Nat → List Nat}
                 · rcases hdf t ht h with h | h
                   · exact Or.inl h
                   · right; omega)
+              ((hma.markPivoted (row := rd L x) (by rw [hkpdef]; exact hkp)).congr e_lsub e_nextl (fun r hr => by
+                unfold mk2 at hr ⊢; rw [e_mark] at hr; exact hr))
           obtain ⟨nwc, hnw1, hnw2, hnw3, hnw4⟩ := hres2.new
           -- the pop of c
           have hcpost : c ∉ post := fun h => by have := hpo.fin c h; exact this hdisc
@@ -603,6 +684,7 @@ theorem scan_rows (hE : EnvOK e L nextl0) {adj : Nat → List Nat}
             · exact Or.inl (mem_cons_of_mem _ h)
           obtain ⟨nr, st4, post4, hrunr, hpost4, hres4⟩ := ihd s (x + 1) st3 (c :: post2) hs hf hrs (by omega) (by omega) hst3 hpo3
             ((hd3 _).mpr (hres2.mono _ (hd1 _ hds))) hdf3
+            (hres2.ma.congr (by rw [← hst3def]) (by rw [← hst3def]) (fun r hr => by rw [← hst3def] at hr; exact hr))
           obtain ⟨nwr, hnr1, hnr2, hnr3, hnr4⟩ := hres4.new
           refine ⟨1 + nc + 1 + nr, st4, post4, ?_, ?_, ?_⟩
           · intro F
@@ -671,7 +753,8 @@ theorem scan_rows (hE : EnvOK e L nextl0) {adj : Nat → List Nat}
                   have b4 := hres4.bound
                   have hK : (rd e.xprune c - rd e.xlsub c).toNat + 2 ≤ stepK nextl0 := by unfold stepK; omega
                   rw [length_cons, Nat.succ_mul] at b4
-                  omega }
+                  omega
+                ma := hres4.ma }
 
 end main
 
@@ -690,6 +773,7 @@ structure Root (post : List Nat) (st : St) : Prop where
   ok : StOK e L nextl0 st
   pok : PostOK e post st
   fin : ∀ t : Nat, (t : Int) < e.jcol → disc st t → t ∈ post
+  ma : MA e nextl0 st
 
 /-- how `segrep` grew -/
 structure SegExt (st : St) (post : List Nat) (st' : St) (post' : List Nat) : Prop where
@@ -716,8 +800,8 @@ theorem SegExt.trans {st st1 st2 : St} {post post1 post2 : List Nat} (h0 : 0 ≤
     rw [h2.segFrame x (by omega), h1.segFrame x hx]
 
 theorem Root.of_mild {st st1 : St} {post : List Nat} (hm : Mild st st1) (h : Root (e := e) (L := L) (nextl0 := nextl0) post st)
-    (hok : StOK e L nextl0 st1) : Root (e := e) (L := L) (nextl0 := nextl0) post st1 :=
-  ⟨hok, h.pok.of_mild hm, fun t ht hd => h.fin t ht ((hm.disc _).mp hd)⟩
+    (hok : StOK e L nextl0 st1) (hma : MA e nextl0 st1) : Root (e := e) (L := L) (nextl0 := nextl0) post st1 :=
+  ⟨hok, h.pok.of_mild hm, fun t ht hd => h.fin t ht ((hm.disc _).mp hd), hma⟩
 
 /-- one nonzero of the column: the machine does what one recursive visit from its pivot column does -/
 theorem rootStep_spec (hE : EnvOK e L nextl0) {adj : Nat → List Nat}
@@ -761,9 +845,11 @@ theorem rootStep_spec (hE : EnvOK e L nextl0) {adj : Nat → List Nat}
         · unfold appendRow; split <;> rfl
         · unfold appendRow; split <;> rfl
         · intro t; unfold appendRow; split <;> exact Iff.rfl
-      exact ⟨_, post, rfl, hR.of_mild hm ((hst.mark krow (fun h => absurd hkp h)).append krow _ hr0 hr1 hkp
+      have hokB := (hst.mark krow (fun h => absurd hkp h)).append krow (mk2 e st krow) hr0 hr1 hkp
           (by unfold mk2; exact rd_wr_eq (by have := hE.m0; omega) (by have := hst.szMark; omega))
-          (fun hin => hmk (hst.app.rows _ hin).2.2.2)), SegExt.of_mild hm,
+          (fun hin => hmk (hst.app.rows _ hin).2.2.2)
+      exact ⟨_, post, rfl, hR.of_mild hm hokB (hR.ma.markAppend hst _ _ hokB
+          (hst.room hr0 hr1 hkp (fun hin => hmk (hst.app.rows _ hin).2.2.2))), SegExt.of_mild hm,
         hpost _ (fun _ => rfl) (fun h => absurd hkp h)⟩
     · simp only [hkp, if_false]
       by_cases hdc : disc st (repOf e (rd e.perm_r krow))
@@ -778,7 +864,9 @@ theorem rootStep_spec (hE : EnvOK e L nextl0) {adj : Nat → List Nat}
           · unfold lowerFnz; split <;> rfl
           · unfold lowerFnz; split <;> rfl
           · intro t; exact lowerFnz_disc hkp hd' t
-        exact ⟨_, post, rfl, hR.of_mild hm ((hst.mark krow (fun _ => hdc)).lower hkp hd'), SegExt.of_mild hm,
+        exact ⟨_, post, rfl, hR.of_mild hm ((hst.mark krow (fun _ => hdc)).lower hkp hd')
+          ((hR.ma.markPivoted hkp).congr (by unfold lowerFnz; split <;> rfl) (by unfold lowerFnz; split <;> rfl)
+            (fun r hr => by unfold lowerFnz at hr; split at hr <;> exact hr)), SegExt.of_mild hm,
           hpost _ (fun h => absurd h hkp) (fun _ => (hfin hkp hdc).symm)⟩
       · have hdisc : rd st.repfnz (repOf e (rd e.perm_r krow)) = EMPTY := by
           unfold disc at hdc; exact not_not.mp hdc
@@ -842,6 +930,8 @@ theorem rootStep_spec (hE : EnvOK e L nextl0) {adj : Nat → List Nat}
               rcases hd1' _ hd with h | h
               · right; exact_mod_cast (le_of_eq h)
               · exact Or.inl (hR.fin t ht h))
+            ((hR.ma.markPivoted (row := krow) (by rw [hkpdef]; exact hkp)).congr e_lsub e_nextl (fun r hr => by
+              unfold mk2 at hr ⊢; rw [e_mark] at hr; exact hr))
         obtain ⟨nwc, hnw1, hnw2, hnw3, hnw4⟩ := hres2.new
         have hcpost : c ∉ post := fun h => by have := hpo.fin c h; exact this hdisc
         have hcpost2 : c ∉ post2 := by
@@ -899,7 +989,7 @@ theorem rootStep_spec (hE : EnvOK e L nextl0) {adj : Nat → List Nat}
             rw [← Nat.succ_mul]; exact Nat.mul_le_mul_right _ hlen
           rw [Nat.succ_mul] at hfuel
           omega
-        refine ⟨st3, c :: post2, ?_, ⟨hst3, hpo3, ?_⟩, ⟨⟨c :: nwc, by rw [hnw1]; rfl, ?_, ?_⟩, ?_⟩, ?_⟩
+        refine ⟨st3, c :: post2, ?_, ⟨hst3, hpo3, ?_, hres2.ma.congr (by rw [← hst3def]) (by rw [← hst3def]) (fun r hr => by rw [← hst3def] at hr; exact hr)⟩, ⟨⟨c :: nwc, by rw [hnw1]; rfl, ?_, ?_⟩, ?_⟩, ?_⟩
         · obtain ⟨F, hF⟩ : ∃ F, fuel = nc + (F + 1) := ⟨fuel - nc - 1, by omega⟩
           rw [hF, hrunc, hpop]
         · intro t ht hd
@@ -1047,7 +1137,7 @@ theorem wfIn_root (h : wfIn i = true) :
       fun r hr => by
         have hr' : r ∈ slice i.lsub (rd i.xlsub i.jcol) (rd i.xlsub i.jcol) := hr
         rw [slice_nil] at hr'; simp at hr',
-      c3⟩, fun _ _ _ => rfl, le_refl _, b1, b2, b3, a4, ?_, b4⟩, ⟨?_, ?_, ?_, c1⟩, ?_⟩
+      c3⟩, fun _ _ _ => rfl, le_refl _, b1, b2, b3, a4, ?_, b4⟩, ⟨?_, ?_, ?_, c1⟩, ?_, ?_⟩
   · intro r r0 r1 hm
     obtain ⟨k, rfl⟩ := Int.eq_ofNat_of_zero_le r0
     exact absurd hm (hmark k r1)
@@ -1055,6 +1145,9 @@ theorem wfIn_root (h : wfIn i = true) :
   · intro t ht; exact ((hmem t).mp ht).1
   · intro t ht; exact ((hmem t).mp ht).2
   · intro t ht hd; exact (hmem t).mpr ⟨ht, hd⟩
+  · intro r r0 r1 hm
+    obtain ⟨k, rfl⟩ := Int.eq_ofNat_of_zero_le r0
+    exact absurd hm (hmark k r1)
 
 theorem wfIn_fuel (h : wfIn i = true) : (i.env.jcol.toNat + 1) * stepK (rd i.xlsub i.jcol) ≤ fuelBound i := by
   obtain ⟨_, _, ⟨c1, c2, c3⟩, _⟩ := wfIn_unpack h
